@@ -1,4 +1,5 @@
 import NitroVerif.Lemmas.ParseDocErase
+import NitroVerif.Lemmas.ParseDocTsErase
 /-!
 # C07 — render ∘ parse for selections, selection sets, … up to whole documents
 
@@ -130,5 +131,98 @@ example : rDoc (fun _ => []) (fun _ => true)
      .frag { name := "F", cond := "T", sel := [.field none "b" {} [] [] none] },
      .op { kind := .query, sel := [.spread "F" {} [] {}] }] =
     "query Q($v:Int!=1){a(x:$v)}fragment F on T{b}{...F}".toList := by decide
+
+/-! ### type-system definitions and documents
+
+Descriptions are rendered as ordinary (non-block) string values; `implements` lists and union member lists without the
+optional leading `&` / `|`. -/
+
+/-- `render_parse_input_value_definition`: `"description" name: Type = default @directives` (an argument definition or an
+    input field) with arbitrary trivia after every token; what follows must begin with none of `!`, `=`, `@`, `(` (and, when
+    the rendering does not end with a non-empty gap, neither with `.` nor `"`). -/
+theorem render_parse_input_value_definition (τ : Trivia) (hτ : ∀ q, Ws (τ q)) (v : InputValueDef) (hwf : WFIVD v)
+    (sep : Bool) (inp : List Char) (off : Nat) (X : List Char) (h : inp.drop off = rIVD τ sep off v ++ X)
+    (hX : HeadNot (fun d => trivia d ∨ ivdBad sep d) X) (hglue : sep = false → HeadNot nameCont X) (fuel bfuel : Nat)
+    (hf : B (rIVD τ sep off v).length + 30 ≤ fuel) (hb : (rIVD τ sep off v).length ≤ bfuel) :
+    ∃ e pair, Peg.run gList fuel R.InputValueDefinition inp off .nonAtomic = some (e, [pair]) ∧
+      e ≤ off + (rIVD τ sep off v).length ∧
+      buildInputValueDefinition (Ctx.spec inp) bfuel pair = .ok (wpIVD τ inp sep off v) := by
+  obtain ⟨pr, hr, _, hbld⟩ := ivdT τ hτ v hwf (hasAt_of_drop h) (nxt_of_drop h hX hglue)
+  obtain ⟨e, hrun, hle⟩ := run_of_runsK hr (fuel := fuel) (by omega)
+  exact ⟨e, pr, hrun, hle, hbld bfuel hb⟩
+
+/-- `render_parse_field_definition`: `"description" name(argument definitions): Type @directives`; `fieldDefFn` is what
+    `build_fields_definition` maps over the children of a `FieldsDefinition`. -/
+theorem render_parse_field_definition (τ : Trivia) (hτ : ∀ q, Ws (τ q)) (f : FieldDef) (hwf : WFFieldDef f)
+    (sep : Bool) (inp : List Char) (off : Nat) (X : List Char) (h : inp.drop off = rFieldDef τ sep off f ++ X)
+    (hX : HeadNot (fun d => trivia d ∨ fdBad d) X) (hglue : sep = false → HeadNot nameCont X) (fuel bfuel : Nat)
+    (hf : B (rFieldDef τ sep off f).length + 30 ≤ fuel) (hb : (rFieldDef τ sep off f).length ≤ bfuel) :
+    ∃ e pair, Peg.run gList fuel R.FieldDefinition inp off .nonAtomic = some (e, [pair]) ∧
+      e ≤ off + (rFieldDef τ sep off f).length ∧
+      fieldDefFn (Ctx.spec inp) bfuel pair = .ok (wpFieldDef τ inp sep off f) := by
+  obtain ⟨pr, hr, _, hbld⟩ := fieldDefT τ hτ f hwf (hasAt_of_drop h) (nxt_of_drop h hX hglue)
+  obtain ⟨e, hrun, hle⟩ := run_of_runsK hr (fuel := fuel) (by omega)
+  exact ⟨e, pr, hrun, hle, hbld bfuel hb⟩
+
+/-- `render_parse_enum_value_definition`: `"description" VALUE @directives` (the value's name is none of `true`, `false`,
+    `null`). -/
+theorem render_parse_enum_value_definition (τ : Trivia) (hτ : ∀ q, Ws (τ q)) (v : EnumValueDef) (hwf : WFEnumVal v)
+    (sep : Bool) (inp : List Char) (off : Nat) (X : List Char) (h : inp.drop off = rEnumVal τ sep off v ++ X)
+    (hX : HeadNot (fun d => trivia d ∨ evBad d) X) (hglue : sep = false → HeadNot nameCont X) (fuel bfuel : Nat)
+    (hf : B (rEnumVal τ sep off v).length + 30 ≤ fuel) (hb : (rEnumVal τ sep off v).length ≤ bfuel) :
+    ∃ e pair, Peg.run gList fuel R.EnumValueDefinition inp off .nonAtomic = some (e, [pair]) ∧
+      e ≤ off + (rEnumVal τ sep off v).length ∧
+      buildEnumValueDefinition (Ctx.spec inp) bfuel pair = .ok (wpEnumVal τ inp sep off v) := by
+  obtain ⟨pr, hr, _, hbld⟩ := enumValDefT τ hτ v hwf (hasAt_of_drop h) (nxt_of_drop h hX hglue)
+  obtain ⟨e, hrun, hle⟩ := run_of_runsK hr (fuel := fuel) (by omega)
+  exact ⟨e, pr, hrun, hle, hbld bfuel hb⟩
+
+/-- `render_parse_type_system_definition`: wherever the rendering of a well-formed item of a type-system document occurs
+    in an input (see `WFTsItem` for the items covered), followed by a token that begins with none of `@ ( { & | =` (and
+    not with a name character unless the rendering ends with a non-empty gap), the `TypeSystemDefinitionOrExtension` rule
+    succeeds with one pair on which `build_type_system_definition_or_extension` returns the item with the true position
+    of every token. -/
+theorem render_parse_type_system_definition (τ : Trivia) (hτ : ∀ q, Ws (τ q)) (it : TsItem) (hwf : WFTsItem it)
+    (sep : Bool) (inp : List Char) (off : Nat) (X : List Char) (h : inp.drop off = rTsItem τ sep off it ++ X)
+    (hX : HeadNot (fun d => trivia d ∨ tdBad d) X) (hglue : sep = false → HeadNot nameCont X) (fuel bfuel : Nat)
+    (hf : B (rTsItem τ sep off it).length + 130 ≤ fuel) (hb : (rTsItem τ sep off it).length ≤ bfuel) :
+    ∃ e pair, Peg.run gList fuel R.TypeSystemDefinitionOrExtension inp off .nonAtomic = some (e, [pair]) ∧
+      e ≤ off + (rTsItem τ sep off it).length ∧
+      buildTypeSystemDefinitionOrExtension (Ctx.spec inp) bfuel pair = .ok (wpTsItem τ inp sep off it) := by
+  obtain ⟨pr, hr, _, hbld⟩ := tsItemT τ hτ it hwf sep off (hasAt_of_drop h) (nxt_of_drop h hX hglue)
+  obtain ⟨e, hrun, hle⟩ := run_of_runsK hr (fuel := fuel) (by omega)
+  exact ⟨e, pr, hrun, hle, hbld bfuel hb⟩
+
+/-- **`parse_render_type_system_document`**: for EVERY non-empty list `doc` of well-formed type-system items (`WFTsItem`)
+    and every trivia assignment `τ` (arbitrary whitespace, commas, BOM, comments at the start of the text and after every
+    token), the model of `parse_type_system_document` — the generated grammar's `TypeSystemExtensionDocument` rule with the
+    model's own depth bounds, `validate_unicode_escapes`, `build_type_system_document` — applied to the rendering returns
+    exactly the document, every position being the line/column of the first character of the corresponding token
+    (`wpTsDoc`). -/
+theorem parse_render_type_system_document (τ : Trivia) (hτ : ∀ q, Ws (τ q)) (doc : List TsItem) (hne : doc ≠ [])
+    (hwf : ∀ d ∈ doc, WFTsItem d) :
+    parseTs (rTsDoc τ doc) = .ok (wpTsDoc τ (rTsDoc τ doc) doc) :=
+  parseTs_rTsDoc τ hτ doc hne hwf
+
+/-- … in the terms of the property: the document returned differs from `doc` only in positions (`GqlTokens.eraseTsDoc`),
+    provided every type definition of `doc` carries only the components of its kind (`NormalItem`: a scalar has no fields,
+    … — the rendering does not show the others). -/
+theorem parse_render_type_system_document_erase (τ : Trivia) (hτ : ∀ q, Ws (τ q)) (doc : List TsItem) (hne : doc ≠ [])
+    (hwf : ∀ d ∈ doc, WFTsItem d) (hn : ∀ d ∈ doc, NormalItem d) :
+    ∃ A, parseTs (rTsDoc τ doc) = .ok A ∧ GqlTokens.eraseTsDoc A = GqlTokens.eraseTsDoc doc :=
+  ⟨_, parseTs_rTsDoc τ hτ doc hne hwf, tsErase_wpTsDoc τ _ doc hn⟩
+
+/-- the hypotheses are satisfiable: one definition of each kind, in canonical trivia -/
+example : rTsDoc (fun _ => [])
+    [.typeDef { kind := .scalar, name := "S", dirs := [{ name := "d" }] },
+     .typeDef { kind := .object, desc := some "doc", name := "T", implements := [("I", {}), ("J", {})],
+                fields := [{ name := "f", args := [{ name := "x", ty := .named "Int" {}, default := some (.int "1" {}) }],
+                             ty := .nonNull (.named "S" {}) }] },
+     .typeDef { kind := .interface, name := "I", fields := [{ name := "g", ty := .list (.named "T" {}) {} }] },
+     .typeDef { kind := .union, name := "U", members := [("T", {}), ("V", {})] },
+     .typeDef { kind := .enum, name := "E", values := [{ name := "A" }, { name := "B", dirs := [{ name := "d" }] }] },
+     .typeDef { kind := .input, name := "In", inputs := [{ name := "y", ty := .named "E" {} }] }] =
+    "scalar S@d \"doc\"type T implements I&J{f(x:Int=1):S!} interface I{g:[T]} union U=T|V enum E{A B@d} input In{y:E}".toList := by
+  decide
 
 end NitroVerif.C07
